@@ -80,7 +80,29 @@ def build_corpus(tier, seed):
             for sh in gen.SHELLS:
                 cases.append({"id": len(cases) + 1, "usage": text, "shell": sh, "g": p["g"], "recipe": p["recipe"],
                               "opt": {"dest": "file", "destname": "_cmd" if sh == "zsh" else "out.script"}})
-    return cases, len(protos), res1, res2
+    # two entry points sharing a definition, one of them with a second, nested dependency; names drawn per grammar (the order in
+    # which complgen walks its name-keyed hash tables depends on the names); definitions permuted, canonical layout, one shell
+    L, R = gen.L, gen.R
+    nshared = 40 if tier == "quick" else 400
+    for k in range(nshared):
+        names = []
+        while len(names) < 5:
+            nm = rnd.choice("abcdefghijklmnopqrstuvwxyzABCDEFGHIJKLMNOPQRSTUVWXYZ") + "".join(rnd.choice("abcdefghijklmnopqrstuvwxyz0123456789-_") for _ in range(rnd.randint(1, 8)))
+            if nm not in names and not nm.endswith("-") and nm.upper() not in ("PATH", "DIRECTORY"):
+                names.append(nm)
+        r1, r2, b, e, f = names
+        vs = [("cmd", ("alt", [("seq", [L("move"), R(r1)]), ("seq", [L("start"), R(r2)])]))]
+        defs = [(r1, "", ("seq", [R(b), ("opt", R(e))])), (r2, "", ("seq", [("opt", L("-r")), R(b)])), (e, "", ("seq", [L("--jobs"), R(f)])),
+                (f, "", ("alt", [L("fast"), L("slow")])), (b, "", ("alt", [L("x"), L("y")]))]
+        g = len(protos) + k
+        sh = rnd.choice(gen.SHELLS)
+        for r in range(6):
+            order = [("v", 0)] + [("d", i) for i in (range(5) if r == 0 else rnd.sample(range(5), 5))]
+            toks, ast = gen.statements_tokens(vs, defs, order=order)
+            layout.annotate(toks)
+            cases.append({"id": len(cases) + 1, "usage": layout.render(toks, layout.default_ids(toks)), "shell": sh, "g": g, "recipe": r,
+                          "opt": {"dest": "file", "destname": "_cmd" if sh == "zsh" else "out.script"}})
+    return cases, len(protos) + nshared, res1, res2
 
 
 def run(tier):
